@@ -1,5 +1,6 @@
 import BFL.Driver.Proto
 import BFL.Model.History
+import BFL.Model.HistorySpec
 import BFL.Model.Extract
 /-
 Driver entries for C17 (estimate extraction and its history buffer).
@@ -13,8 +14,11 @@ Driver entries for C17 (estimate extraction and its history buffer).
              | Q (move-assign the current object to the other one) | T (switch to the other object)
              | X <N> particles(cm, (lin+circ)×N) weights(N)
              | Y <N> <K> particles weights(N) prev_weights(K) likelihoods(N) transition(cm, N×K)
-     -> per call, separated by `|`:  `<tag> <flag> <window> <method> [est…] [t:… branch tags] [v:… map values]`
+     -> per call, separated by `|`:  `<tag> <flag> <window> <method> [est…] [t:… branch tags] [v:… map values] s:ok|s:BAD`
         (window and method of the current object after the call)
+
+  hbs <dim> <nops> {op}       the same operation sequences on the SPECIFICATION `HistSpec` (append-only log + counter;
+                              `BFL.C17.buffer_refines_spec`): same output format, flags always 1
 
   eew <k>                     the three weight vectors for history length k (Float), for the weight oracle
 -/
@@ -79,6 +83,31 @@ def hb : R String := do
       let f := hbFlag (p.get cur) o
       p := HistBuf.step2 p (.on cur o)
       outs := outs.push (join [t, if f then "1" else "0", toString (p.get cur).window])
+  pure (" | ".intercalate outs.toList)
+
+/-- the specification machine `HistSpec` on the same operation sequences -/
+def hbs : R String := do
+  let dim ← nat; let n ← nat
+  let ops ← hbOps dim n
+  done
+  let mut p : HistSpec.Pair (List String) := ⟨HistSpec.init, HistSpec.init⟩
+  let mut cur : Bool := false
+  let mut outs : Array String := #[]
+  for (t, op) in ops do
+    match op with
+    | none =>
+      if t == "G" then
+        let v := (p.get cur).view
+        outs := outs.push (join (["G", toString v.length] ++ v.flatten))
+      else
+        if t == "T" then cur := !cur
+        else if t == "K" then p := HistSpec.step2 p (.moveCtor cur)
+        else if t == "Q" then p := HistSpec.step2 p (.moveAssign cur (!cur))
+        else p := HistSpec.step2 p (.moveAssign cur cur)
+        outs := outs.push (join [t, "1", toString (p.get cur).window])
+    | some o =>
+      p := HistSpec.step2 p (.on cur o)
+      outs := outs.push (join [t, "1", toString (p.get cur).window])
   pure (" | ".intercalate outs.toList)
 
 /-! ### EstimatesExtraction -/
@@ -180,14 +209,22 @@ def mapVals (c : Call Float) (s : EE Float) : List String :=
     if s.method.stat == .map then (mapValues dblMin a.pw a.lik a.tp).map fun v => "v:" ++ floatStr v else []
   | _ => []
 
+/-- does the history buffer of an object show what its specification state shows? (bit patterns compared) -/
+def sameHist (h : HistBuf (List Float)) (s : HistSpec (List Float)) : Bool :=
+  h.window == s.window && (h.items.map fun c => c.map floatStr) == (s.view.map fun c => c.map floatStr)
+
 def ee : R String := do
   let lin ← nat; let circ ← nat; let n ← nat
   let calls ← readCalls lin circ n
   done
   let mut p : Pool Float := Pool.init lin circ
+  -- the specification pair (append-only logs + counters), driven by the translated operations `poolBufOp`
+  -- (theorem `ee_pool_history_refines_spec`): token `s:ok` when both objects show what it shows
+  let mut sp : HistSpec.Pair (List Float) := ⟨HistSpec.init, HistSpec.init⟩
   let mut outs : Array String := #[]
   for (t, pc) in calls do
     let s := p.get p.cur
+    sp := (poolBufOp dblMin p pc).foldl HistSpec.step2 sp
     let (tg, mv) := match pc with
       | .call c => (tags s c, mapVals c s)
       | _ => (["t:hand-over:" ++ t], [])
@@ -197,7 +234,9 @@ def ee : R String := do
     let est := match r.2.est with
       | some e => e.map floatStr
       | none => []
-    outs := outs.push (join ([t, if r.2.flag then "1" else "0", toString s'.hist.window, toString (natOfMethod s'.method)] ++ est ++ tg ++ mv))
+    let specOk := sameHist (p.get false).hist (sp.get false) && sameHist (p.get true).hist (sp.get true)
+    outs := outs.push (join ([t, if r.2.flag then "1" else "0", toString s'.hist.window, toString (natOfMethod s'.method)] ++ est ++ tg ++ mv
+      ++ [if specOk then "s:ok" else "s:BAD"]))
   pure (" | ".intercalate outs.toList)
 
 def eew : R String := do
@@ -211,6 +250,7 @@ def eew : R String := do
 def handle (op : String) (args : List String) : Option String :=
   match op with
   | "hb" => some ((run hb args).getD "bad-args")
+  | "hbs" => some ((run hbs args).getD "bad-args")
   | "ee" => some ((run ee args).getD "bad-args")
   | "eew" => some ((run eew args).getD "bad-args")
   | _ => none
